@@ -5,6 +5,8 @@ R14.1  the discriminated path is exact: a present discriminator with a mapped va
        `property in data` (a null discriminator is a value, not absence)
 R14.2  first-success loops are lossless only if extra keys are rejected                      [finding on the pinned tree]
 R14.3  Union[...] is rendered in spec order with order-preserving de-duplication
+R14.8  DiscriminatorEnumCollector consults the discriminator mapping on every path to 'skip this variant' (must-pass-through)
+R14.7  named union / array members are expanded to their underlying type only when they are primitive aliases (decision evaluated over the `type` domain)
 R14.6  no function of the converter memoises (functools cache / table keyed by the type) data derived from the member order of a typing construct
 R14.5  the generated get_mapping() has one entry per discriminator value (written from the spec's mapping itself)
 R14.4  discriminated aliases keep their metadata for every Union spelling the type service can produce
@@ -15,7 +17,7 @@ import ast
 from typing import List, Optional, Set
 
 from sa.cfg import CFG, guards
-from sa.model import full, AnalysisError, Repo, calls_in, const_str, dotted, norm, own_nodes
+from sa.model import full, AnalysisError, Repo, calls_in, const_str, dotted, norm, own_nodes, parent
 from sa.match import Locals, conjuncts, match, names_in
 from sa.report import Report
 
@@ -239,6 +241,8 @@ def run(repo: Repo, rep: Report, tier: str) -> None:
                           "Union variants are not rendered in spec order with order-preserving de-duplication: first-success decoding then depends on hashing/sorting", fn.loc())
 
     _mapping_entries_rule(repo, rep)
+    rule_underlying_only_for_primitives(repo, rep, "R14.7")
+    rule_mapping_fallback(repo, rep, "R14.8")
 
     # ---------------------------------------------------------------- R14.4 alias keeps discriminator metadata
     ra = repo.func("core.writers.python_construct_renderer:PythonConstructRenderer.render_alias")
@@ -309,3 +313,131 @@ def _ancestors(n: ast.AST):
     while x is not None:
         yield x
         x = _p(x)
+
+
+# ------------------------------------------------------------------------------------------------ R14.7 only primitive aliases are expanded
+def rule_underlying_only_for_primitives(repo: Repo, rep: Report, rule: str = "R14.7") -> None:
+    """A named member of a union / array is rendered by *name* (so that `Pet`'s Annotated discriminator metadata is kept) unless it is a
+    primitive type alias, in which case its underlying type is inlined.  Every copy of that decision in the schema resolver - a
+    conjunction that mentions `resolve_underlying` and tests the member's `type` - is evaluated over the possible `type` values: it may
+    hold for string / integer / number / boolean only (a named oneOf has `type None`, an array alias `array`)."""
+    sr = repo.module("types.resolvers.schema_resolver")
+    DOMAIN_T = ["string", "integer", "number", "boolean", "object", "array", None]
+    PRIMS = {"string", "integer", "number", "boolean"}
+    n = 0
+    for q, fn in sr.functions.items():
+        for node in own_nodes(fn.node):
+            if not (isinstance(node, ast.BoolOp) and isinstance(node.op, ast.And)) or isinstance(parent(node), ast.BoolOp):
+                continue
+            if not any(isinstance(x, ast.Name) and x.id == "resolve_underlying" for v in node.values for x in ast.walk(v)):
+                continue
+            type_conj = [v for v in node.values if any(
+                (isinstance(x, ast.Constant) and x.value == "type") or (isinstance(x, ast.Attribute) and x.attr == "type") for x in ast.walk(v))]
+            if not type_conj:
+                continue
+            n += 1
+            sub = f"{sr.relpath}:{q} expand-the-alias decision `{norm(node)[:50]}…`"
+
+            def ev(e: ast.AST, t):
+                if isinstance(e, ast.Constant):
+                    return e.value
+                if isinstance(e, ast.Call) and isinstance(e.func, ast.Name) and e.func.id == "getattr" and len(e.args) >= 2 and const_str(e.args[1]) == "type":
+                    return t
+                if isinstance(e, ast.Attribute) and e.attr == "type":
+                    return t
+                if isinstance(e, (ast.Tuple, ast.List, ast.Set)):
+                    return [ev(x, t) for x in e.elts]
+                if isinstance(e, ast.UnaryOp) and isinstance(e.op, ast.Not):
+                    return not ev(e.operand, t)
+                if isinstance(e, ast.BoolOp):
+                    vs = [ev(v, t) for v in e.values]
+                    return all(vs) if isinstance(e.op, ast.And) else any(vs)
+                if isinstance(e, ast.Compare) and len(e.ops) == 1:
+                    a, b = ev(e.left, t), ev(e.comparators[0], t)
+                    op = e.ops[0]
+                    if isinstance(op, ast.In):
+                        return a in b
+                    if isinstance(op, ast.NotIn):
+                        return a not in b
+                    if isinstance(op, ast.Eq):
+                        return a == b
+                    if isinstance(op, ast.NotEq):
+                        return a != b
+                    if isinstance(op, ast.Is):
+                        return a is b
+                    if isinstance(op, ast.IsNot):
+                        return a is not b
+                raise AnalysisError(f"{rule}: cannot evaluate `{norm(e)[:60]}` in the expand-the-alias decision of {q}")
+
+            wrong = [t for t in DOMAIN_T if all(bool(ev(c, t)) for c in type_conj) and t not in PRIMS]
+            if wrong:
+                rep.violation(rule, sub, f"{fn.fq}|expands-non-primitive|{wrong}",
+                              f"a named member whose `type` is {wrong} is expanded to its underlying type as well: `PetList = List[Pet]` becomes `List[Union[Cat, Dog]]`, "
+                              "the Annotated discriminator metadata of `Pet` is lost and the payload is decoded by first-success instead of by its discriminator", fn.loc(node))
+            else:
+                rep.ok(rule, sub, "holds for string / integer / number / boolean members only", fn.loc(node))
+    rep.count(f"{rule}:decision_copies", n)
+    rep.require(n >= 1, f"{rule}: no expand-the-alias decision (a conjunction over `resolve_underlying` and the member's type) found in schema_resolver (anchor)")
+
+
+# ------------------------------------------------------------------------------------------------ R14.8 the mapping fallback is always consulted
+def rule_mapping_fallback(repo: Repo, rep: Report, rule: str = "R14.8") -> None:
+    """DiscriminatorEnumCollector re-types every variant's discriminator property with one unified enum.  A variant whose own property
+    yields no values must still contribute the value the discriminator *mapping* gives it - otherwise the unified enum lacks the value the
+    mapping routes to that variant and a conforming payload is rejected.  Every path from the initialisation of the per-variant value list
+    to the statement that skips the variant passes through the test that consults the table built from `discriminator.mapping`."""
+    from sa.match import Locals as _L
+
+    col = None
+    for m in repo.modules.values():
+        if "DiscriminatorEnumCollector" in m.classes:
+            col = m.classes["DiscriminatorEnumCollector"]
+    if col is None:
+        raise AnalysisError("anchor vanished: DiscriminatorEnumCollector")
+    done = False
+    for fn in col.methods.values():
+        L = _L(fn.node)
+        # the table built from discriminator.mapping: a dict local filled inside a loop over `<…>.mapping.items()`
+        tables = set()
+        for lp in own_nodes(fn.node):
+            if isinstance(lp, ast.For) and isinstance(lp.iter, ast.Call) and isinstance(lp.iter.func, ast.Attribute) and lp.iter.func.attr == "items" \
+                    and isinstance(lp.iter.func.value, ast.Attribute) and lp.iter.func.value.attr == "mapping":
+                for st in ast.walk(lp):
+                    if isinstance(st, ast.Assign) and isinstance(st.targets[0], ast.Subscript) and isinstance(st.targets[0].value, ast.Name):
+                        tables.add(st.targets[0].value.id)
+        if not tables:
+            continue
+        # the per-variant value list: the local iterated to fill the collected values, initialised in the variant loop
+        cfg = CFG(fn.node)
+        cands = [lp.iter.id for lp in own_nodes(fn.node) if isinstance(lp, ast.For) and isinstance(lp.iter, ast.Name) and len(L.defs.get(lp.iter.id, [])) >= 2]
+        for r in sorted(set(cands)):
+            inits = [n for n in cfg.nodes if n.kind == "stmt" and not n.copy and isinstance(n.ast, (ast.Assign, ast.AnnAssign)) and n.ast.value is not None
+                     and isinstance(n.ast.value, ast.Constant) and n.ast.value.value is None
+                     and any(isinstance(t, ast.Name) and t.id == r for t in (n.ast.targets if isinstance(n.ast, ast.Assign) else [n.ast.target]))]
+            skips = [n for n in cfg.nodes if n.kind == "test" and not n.copy and isinstance(n.ast, ast.UnaryOp) and isinstance(n.ast.op, ast.Not)
+                     and isinstance(n.ast.operand, ast.Name) and n.ast.operand.id == r]
+            def consults(e: Optional[ast.AST]) -> bool:
+                return e is not None and any(isinstance(x, ast.Name) and x.id in tables for x in ast.walk(L.inline(e, stop=tuple(L.params))))
+
+            fallback = {n.id for n in cfg.nodes if (n.kind == "test" and consults(n.ast)) or (
+                n.kind == "stmt" and isinstance(n.ast, (ast.Assign, ast.AnnAssign)) and any(
+                    isinstance(x, ast.Compare) and isinstance(x.ops[0], (ast.In, ast.NotIn)) and isinstance(x.comparators[0], ast.Name) and x.comparators[0].id in tables
+                    for x in ast.walk(n.ast)))}
+            if not inits or not skips:
+                continue
+            done = True
+            sub = f"{fn.module.relpath}:{fn.qualname} mapping fallback for `{r}`"
+            if not fallback:
+                rep.violation(rule, sub, f"{fn.fq}|mapping-fallback|absent", "the table built from discriminator.mapping is never consulted for a variant without own enum values", fn.loc())
+                continue
+            w = None
+            for s in skips:
+                w = w or cfg.must_pass(inits[0].id, fallback, {s.id})
+            if w is None:
+                rep.ok(rule, sub, "every path from the initialisation to the skip decision consults the mapping table", fn.loc(skips[0].ast))
+            else:
+                rep.violation(rule, sub, f"{fn.fq}|mapping-fallback|bypassed",
+                              f"a variant can reach the 'no enum values - skip variant' decision without the mapping having been consulted ({cfg.describe_path(w)}): e.g. its "
+                              "discriminator property refers to a named string schema without enum. The unified enum then lacks the value the mapping routes to this "
+                              "variant, and a conforming payload fails with 'Failed to deserialize … (discriminator …)'", fn.loc(skips[0].ast))
+    rep.require(done, f"{rule}: the per-variant value list / mapping table of DiscriminatorEnumCollector was not found (anchor)")
